@@ -360,21 +360,46 @@ class HarnessError(Exception):
     pass
 
 
+class SutHang(Exception):
+    """One pDESy API call did not return within CALL_LIMIT_S seconds of wall-clock time."""
+
+
+CALL_LIMIT_S = 30.0
+
+
+def _on_alarm(signum, frame):
+    raise SutHang("API call still running after %.0f s" % CALL_LIMIT_S)
+
+
 def call(fn, recorder=None):
     """Run ``fn()`` (one pDESy API call) with ``recorder`` active.  Returns an Outcome.
 
     An exception whose innermost frame is pDESy code is SUT behaviour; an InjectedFault is
-    ours; anything raised from harness code is re-raised as HarnessError.
+    ours; anything raised from harness code is re-raised as HarnessError.  A call that does not
+    return within CALL_LIMIT_S (normal calls take milliseconds) is interrupted and classified as
+    SUT behaviour "SutHang" (non-termination), so a hang becomes a replayable violation, not a dead worker.
     """
+    import signal
+    import threading
     import warnings
 
     out = Outcome()
     prev = seams.CUR
     seams.CUR = recorder
+    use_alarm = threading.current_thread() is threading.main_thread()
+    if use_alarm:
+        old_handler = signal.signal(signal.SIGALRM, _on_alarm)
+        signal.setitimer(signal.ITIMER_REAL, CALL_LIMIT_S)
     try:
         with warnings.catch_warnings():
             warnings.simplefilter("ignore")
             out.value = fn()
+    except SutHang as e:
+        out.ok = False
+        out.exc = e
+        out.exc_type = "SutHang"
+        out.where = pdesy_frame(e.__traceback__) or "?"
+        out.msg = str(e)
     except seams.InjectedFault as e:
         out.ok = False
         out.injected = True
@@ -397,6 +422,9 @@ def call(fn, recorder=None):
         out.where = where
         out.msg = str(e)[:200]
     finally:
+        if use_alarm:
+            signal.setitimer(signal.ITIMER_REAL, 0)
+            signal.signal(signal.SIGALRM, old_handler)
         seams.CUR = prev
     return out
 
